@@ -100,7 +100,8 @@ pub enum Op {
     Return { slots: Vec<u8> },
     /// (C05) write a value listing the same `Own` twice into an own collection entry (store = None)
     /// or an entry of the key-value store in slot `store`; shape: 0 tuple (A, A), 1 array [A, A],
-    /// 2 (A, bytes, A), 3 plain write of A first, then re-write of the open entry with (A, A)
+    /// 2 (A, bytes, A), 3 plain write of A first, then re-write of the open entry with (A, A),
+    /// 4 a new object is created whose first field holds (A, A) (create-node path; key/store unused)
     StoreDup { slot: u8, store: Option<u8>, key: Vec<u8>, shape: u8 },
 }
 
@@ -724,6 +725,21 @@ impl Interp {
                     1 => scrypto_encode(&vec![Own(n), Own(n)]).unwrap(),
                     _ => scrypto_encode(&(Own(n), vec![7u8; 5], Own(n))).unwrap(),
                 };
+                if *shape == 4 {
+                    // create-node path: a new object whose first field lists the node twice
+                    let mut fields = index_map_new();
+                    fields.insert(0u8, FieldValue::new((Own(n), Own(n))));
+                    fields.insert(1u8, FieldValue::new(vec![1u8]));
+                    out.result = api.new_object(BP, vec![], GenericArgs::default(), fields, indexmap!()).map(|o| {
+                        self.put(200, o, true);
+                        out.created.push(o);
+                        "created-with-duplicated-own".to_string()
+                    });
+                    if out.result.is_ok() {
+                        self.gone_node(&n);
+                    }
+                    return out;
+                }
                 out.result = (|| {
                     let h = match st {
                         Some(st) => api.key_value_store_open_entry(&st, &k, LockFlags::MUTABLE)?,
